@@ -127,6 +127,8 @@ pub fn install_panic_hook() {
             format!("StepBudgetExceeded({})", b.steps)
         } else if let Some(b) = info.payload().downcast_ref::<LoopBudgetExceeded>() {
             format!("LoopBudgetExceeded({})", b.0)
+        } else if let Some(b) = info.payload().downcast_ref::<ModelBudgetExceeded>() {
+            format!("ModelBudgetExceeded({})", b.0)
         } else {
             "<non-string panic payload>".to_string()
         };
@@ -142,12 +144,18 @@ pub fn install_panic_hook() {
 #[derive(Debug, Clone, Copy)]
 pub struct LoopBudgetExceeded(pub u64);
 
+/// panic payload raised by a monitor sink when a search reaches more two-valued models than the framework has
+#[derive(Debug, Clone, Copy)]
+pub struct ModelBudgetExceeded(pub u64);
+
 #[derive(Debug, Clone, PartialEq, Eq)]
 pub enum Caught {
     /// the library panicked
     Panic(String),
     /// the step budget set by the monitor was exhausted (bounded progress violated)
     Budget(u64),
+    /// the search reached more two-valued models than exist (one of them was reached again)
+    Repeat(u64),
 }
 
 impl Caught {
@@ -155,12 +163,14 @@ impl Caught {
         match self {
             Caught::Panic(m) => format!("panic: {}", m),
             Caught::Budget(s) => format!("step budget exceeded after {} steps", s),
+            Caught::Repeat(k) => format!("two-valued model number {} reached although fewer exist", k),
         }
     }
     pub fn kind(&self) -> &'static str {
         match self {
             Caught::Panic(_) => "panic",
             Caught::Budget(_) => "budget",
+            Caught::Repeat(_) => "repeat",
         }
     }
 }
@@ -182,6 +192,8 @@ pub fn guarded<T>(budget: u64, f: impl FnOnce() -> T) -> Result<T, Caught> {
                 Err(Caught::Budget(b.steps))
             } else if let Some(b) = payload.downcast_ref::<LoopBudgetExceeded>() {
                 Err(Caught::Budget(b.0))
+            } else if let Some(b) = payload.downcast_ref::<ModelBudgetExceeded>() {
+                Err(Caught::Repeat(b.0))
             } else {
                 let msg = LAST_PANIC
                     .with(|p| p.borrow_mut().take())
@@ -218,4 +230,31 @@ pub fn hash_str(s: &str) -> u64 {
 /// message of the last panic seen on this thread (for harness failures)
 pub fn take_last_panic() -> String {
     LAST_PANIC.with(|p| p.borrow_mut().take()).unwrap_or_else(|| "<no message>".into())
+}
+
+/// a logger that accepts everything down to trace level and formats every record (so that the arguments
+/// of every log statement in the library are really evaluated), then throws the text away
+pub struct DevNullLogger;
+
+pub static LOGGED_RECORDS: std::sync::atomic::AtomicU64 = std::sync::atomic::AtomicU64::new(0);
+
+impl log::Log for DevNullLogger {
+    fn enabled(&self, _metadata: &log::Metadata) -> bool {
+        true
+    }
+    fn log(&self, record: &log::Record) {
+        use std::fmt::Write;
+        let mut sink = String::new();
+        let _ = write!(sink, "{}", record.args());
+        LOGGED_RECORDS.fetch_add(1, std::sync::atomic::Ordering::Relaxed);
+    }
+    fn flush(&self) {}
+}
+
+static LOGGER: DevNullLogger = DevNullLogger;
+
+pub fn install_trace_logger() {
+    if log::set_logger(&LOGGER).is_ok() {
+        log::set_max_level(log::LevelFilter::Trace);
+    }
 }
